@@ -7,6 +7,7 @@ import (
 	"crypto/sha512"
 	"fmt"
 	"hash"
+	"os"
 	"strings"
 	"time"
 
@@ -91,6 +92,9 @@ func goHash(a uint64) func() hash.Hash {
 func run(line string) (out string) {
 	defer func() {
 		if r := recover(); r != nil {
+			if os.Getenv("HARNESS_DEBUG") != "" {
+				fmt.Fprintln(os.Stderr, "panic:", r)
+			}
 			out = "panic"
 		}
 	}()
